@@ -1612,7 +1612,9 @@ impl UsageValidator {
             while change {
                 let count = sema.used.len();
                 for rule in file.rule_decls(cst) {
-                    if sema.used.contains(&rule.syntax())
+                    // a part is an entry point of its own: what it refers to is used
+                    // even if the start rule does not reach the part
+                    if (sema.used.contains(&rule.syntax()) || sema.parts.contains(&rule))
                         && let Some(regex) = rule.regex(cst)
                     {
                         Self::set_regex(cst, sema, regex);
